@@ -82,6 +82,15 @@ def gen_song(rng, names, mpd_like=False):
             attrs.append(("Prio", rng.randrange(256)))
         attrs += [("Pos", rng.randrange(5000)), ("Id", rng.randrange(100000))]
         return ("song", url, attrs)
+    if rng.random() < 0.06:
+        # a song with MANY tag lines (a classical recording: dozens of performers; every sort / MusicBrainz tag), several tags
+        # repeated with values that tell their order: whatever is done with the lines of one song is done for 33, 64, 200 of them
+        many = rng.choice([33, 34, 40, 64, 65, 130, 300])
+        few = rng.sample(names, min(len(names), rng.choice([1, 2, 3, 6])))
+        attrs = [("tag", rng.choice(few), f"{rng.choice(['Performer', 'v', 'x y'])} {i:03d}") for i in range(many)]
+        for _ in range(rng.choice([0, 2, 5])):
+            attrs.insert(rng.randrange(len(attrs) + 1), gen_attr(rng, names))
+        return ("song", url, attrs)
     n = rng.choice([0, 0, 1, 2, 3, 5, 8, 14, 25])
     attrs = [gen_attr(rng, names) for _ in range(n)]
     if attrs and rng.random() < 0.3:       # forced repetitions
